@@ -526,6 +526,10 @@ func RunCheck(o *RunOpts, prop string) int {
 			Range []json.RawMessage `json:"map_range_sites"`
 			Note  string            `json:"map_order_seam"`
 			Seam  string            `json:"seam"`
+			Free  []struct {
+				Pkg, File, What string
+				Line            int
+			} `json:"unowned_nondeterminism_sites"`
 		}
 		if json.Unmarshal(b, &seams) == nil {
 			es := map[string]any{"wall_clock_and_local_zone_reads_behind_the_seam": len(seams.Clock), "ranges_over_maps_behind_the_seam": len(seams.Range)}
@@ -537,6 +541,16 @@ func RunCheck(o *RunOpts, prop string) int {
 			}
 			if seams.Seam != "" {
 				es["seams"] = seams.Seam
+			}
+			if len(seams.Free) > 0 {
+				var l []string
+				for _, f := range seams.Free {
+					l = append(l, fmt.Sprintf("%s/%s:%d %s", f.Pkg, f.File, f.Line, f.What))
+				}
+				es["sources_of_nondeterminism_no_seam_owns"] = l
+				m.Capped = append(m.Capped, fmt.Sprintf("%d source(s) of nondeterminism in the library that neither the scheduler nor a seam decides (first: %s)", len(l), l[0]))
+				cov["exhaustive"] = false
+				cov["caps_hit"] = m.Capped
 			}
 			cov["environment_seams"] = es
 		}
